@@ -59,7 +59,9 @@ func (e *Engine) VerifyLemma(key string) (rep *FuncReport) {
 		t := c.specType(tenv, ct.LemmaPTypes[i])
 		bound[p] = c.freshVal("lp_"+p, t, st)
 	}
-	env := &Env{st: st, spec: true, old: st, spkg: fi.Pkg.Types, bound: bound}
+	// two-state lemmas: old(e) reads a second, independent heap
+	stOld := &State{pc: "true", vars: map[types.Object]Val{}, heap: map[string]string{}, epoch: 7, alloc: "alloc!0"}
+	env := &Env{st: st, spec: true, old: stOld, spkg: fi.Pkg.Types, bound: bound}
 	for _, rq := range ct.Requires {
 		c.assume(st, c.eval(env, rq.Expr).T)
 	}
@@ -76,7 +78,7 @@ func (e *Engine) VerifyLemma(key string) (rep *FuncReport) {
 			b2[k] = v
 		}
 		b2[ct.IndVar] = Val{T: app("-", x.T, "1"), Typ: x.Typ}
-		env2 := &Env{st: st, spec: true, old: st, spkg: fi.Pkg.Types, bound: b2}
+		env2 := &Env{st: st, spec: true, old: stOld, spkg: fi.Pkg.Types, bound: b2}
 		var req2, ens2 []string
 		for _, rq := range ct.Requires {
 			req2 = append(req2, c.eval(env2, rq.Expr).T)
@@ -121,7 +123,9 @@ func (c *FnCtx) lemmaFact(name string) string {
 			guards = append(guards, inv)
 		}
 	}
-	env := &Env{st: st, spec: true, old: st, spkg: pkg, bound: bound}
+	infoOld := &recInfo{prefix: fmt.Sprintf("hqo!%d!", id)}
+	stOld := &State{pc: "true", vars: map[types.Object]Val{}, heap: map[string]string{}, epoch: -3, alloc: "0", hparam: infoOld}
+	env := &Env{st: st, spec: true, old: stOld, spkg: pkg, bound: bound}
 	nf := len(c.facts)
 	var req, ens []string
 	for _, rq := range ct.Requires {
@@ -143,6 +147,9 @@ func (c *FnCtx) lemmaFact(name string) string {
 	c.facts = c.facts[:nf]
 	for i, k := range info.keys {
 		binders = append(binders, fmt.Sprintf("(%s %s)", info.prefix+sanitize(k), info.sorts[i]))
+	}
+	for i, k := range infoOld.keys {
+		binders = append(binders, fmt.Sprintf("(%s %s)", infoOld.prefix+sanitize(k), infoOld.sorts[i]))
 	}
 	// (typing facts of memory reads are true of every well-typed heap; the quantified heap
 	// parameters range over all arrays, so they stay hypotheses here)
